@@ -138,4 +138,15 @@ def gtIsValid (o : TOps T) (b383 : Bool) (fam : Fam) (n : Nat) (a : T) : Bool :=
     let u := o.inv u
     o.eq u a
 
+/-! ### g1_mul / g2_mul / g*_mul_gen (src/pc/relic_pc_exp.c): which routine receives which scalar -/
+
+/-- g1_mul / g2_mul: `bn_bits(b) <= RLC_DIG` → g*_mul_dig(|b| as one digit) followed by a negation for a negative b
+    (first component true; this is also literally the one-digit path of ep_mul_basic / ep2_mul_basic, whose model the driver
+    runs); otherwise ep_mul / ep2_mul on `b mod n` (bn_mod: the non-negative residue). -/
+def mulRoute (w n : Nat) (k : Int) : Bool × Int :=
+  if k.natAbs < 2 ^ w then (true, k) else (false, k % (n : Int))
+
+/-- g1_mul_gen / g2_mul_gen: ep_mul_gen / ep2_mul_gen on `b mod n` -/
+def genRoute (n : Nat) (k : Int) : Int := k % (n : Int)
+
 end Relic.Model.PcValid
